@@ -19,6 +19,10 @@ class EvalError(Exception):
     """Numerically undefined at this point (division by ~0, log of negative, complex, overflow)."""
 
 
+class NoBranch(EvalError):
+    """A Piecewise without default none of whose conditions holds: the symbol has no value on this path."""
+
+
 class Unbound(Exception):
     """A symbol had no value in the environment."""
 
@@ -123,7 +127,7 @@ def _ev(e, env, funcs):
         for val, cond in e.args:
             if _ev(cond, env, funcs):
                 return _ev(val, env, funcs)
-        raise EvalError("piecewise-no-branch")
+        raise NoBranch("piecewise-no-branch")
     if f is sympy.Max:
         return max(_ev(a, env, funcs) for a in e.args)
     if f is sympy.Min:
